@@ -572,6 +572,33 @@ def check_rot90_obj(case, f, res, rng, fail):
     return rtag
 
 
+def check_storage_and_scale(f, res, fail):
+    """the operators see numbers, not their storage or their size: (a) the same (integer) values stored as int64 give the
+    result of their float64 copy, bit for bit; (b) the operators are homogeneous: values times 2^-40 (exact in binary64, far
+    from under- and overflow here) give results times 2^-40, bit for bit - no absolute threshold anywhere"""
+    kw = dict(nvdim=f.nvdim, valid=f.valid.copy(), vdims=f.vdims, vdim_mapping=dict(f.vdim_mapping))
+    ints = np.round(np.asarray(f.array, dtype=float) * 8)
+    if not np.all(np.abs(ints) < 2 ** 40):
+        return
+    fi = df.Field(f.mesh, value=ints.astype(np.int64), dtype=np.int64, **kw)
+    ff = df.Field(f.mesh, value=ints.astype(np.float64), **kw)
+    c = 2.0 ** -40
+    fs_ = df.Field(f.mesh, value=ints.astype(np.float64) * c, **kw)
+    for op in OPS:
+        if is_err(res[op]):
+            continue
+        with np.errstate(all="ignore"):
+            a, b, d = attempt(lambda: getattr(ff, op)), attempt(lambda: getattr(fi, op)), attempt(lambda: getattr(fs_, op))
+        if is_err(a):
+            continue
+        if is_err(b) or not np.array_equal(np.asarray(a.array), np.asarray(b.array, dtype=float)):
+            fail(f"storage: {op} of integer values stored as int64 differs from {op} of the same values stored as float64"
+                 + ("" if is_err(b) else f" (e.g. {np.asarray(b.array).reshape(-1)[:4].tolist()} vs {np.asarray(a.array).reshape(-1)[:4].tolist()})"))
+        if is_err(d) or not np.array_equal(np.asarray(d.array), c * np.asarray(a.array)):
+            fail(f"scale: {op}(2^-40 * f) is not 2^-40 * {op}(f): the operators must not depend on the size of the values"
+                 + ("" if is_err(d) else f" (largest deviation {float(np.max(np.abs(np.asarray(d.array) - c * np.asarray(a.array)))):.3g})"))
+
+
 def run_ops(case, obs):
     rng = random.Random(case["sub"])
     fail = obs["oracle"].append
@@ -605,6 +632,8 @@ def run_ops(case, obs):
     check_laplace_pairing(case, f, res, fail)
     check_rot90(case, f, res, rng, "all" if case.get("allrot") else "two", scale, fail)
     rtag = check_rot90_obj(case, f, res, rng, fail)
+    if case["sub"] % 3 == 0:
+        check_storage_and_scale(f, res, fail)
     if not (np.array_equal(snap[0], f.array) and np.array_equal(snap[1], f.valid)
             and snap[2] == (list(f.vdims) if f.vdims else None) and snap[3] == dict(f.vdim_mapping)):
         fail("an operator modified its operand")
